@@ -59,6 +59,21 @@ def real_policy_round_trip(tier, seed):
                     fails.append('encrypted %s value %r came back as %r' % (cql, v, m.parsed_rows))
             except Exception as e:
                 fails.append('decoding the encrypted %s value %r raised %r' % (cql, v, e))
+    # written by one client, read by another: the reader's policy has the same column key but its own (different) initialisation vector - the one that counts is
+    # the one the writer put in front of the ciphertext
+    writer, reader = AES256ColumnEncryptionPolicy(iv=bytes(range(16))), AES256ColumnEncryptionPolicy(iv=bytes(range(100, 116)))
+    cdx = ColDesc('ks', 'tb', 'x')
+    for pol_ in (writer, reader):
+        pol_.add_column(cdx, bytes(range(32)), 'blob')
+    for ln in (0, 1, 15, 16, 17, 40):
+        b = bytes(rng.randrange(256) for _ in range(ln))
+        n += 1
+        try:
+            got = reader.decrypt(cdx, writer.encrypt(cdx, b))
+        except Exception as e:
+            got = e
+        if got != b:
+            fails.append('a value of %d bytes encrypted by one policy instance and decrypted by another with the same key and a different IV gave %r' % (ln, got))
     # two encrypted columns of different types and keys (and a plain one) in one result
     pol2 = AES256ColumnEncryptionPolicy(iv=bytes(range(16)))
     ca, cb = ColDesc('ks', 'tb', 'a'), ColDesc('ks', 'tb', 'b')
